@@ -207,7 +207,7 @@ def dense_consistency(a, rhs, fam, attrs, max_steps=80, what="", sig_what=None):
     sol = a.sol
     if sol is None:
         return out
-    rich = fam == "richardson"
+    rich = False     # wrappers are judged like every other method since fix 3f44fc1
     t = np.asarray(a.t, dtype=np.float64)
     y = np.asarray(a.y, dtype=np.float64)
     N = len(t) - 1
